@@ -90,6 +90,17 @@ impl Driver {
 
 fn main() {
     let args = Args::parse();
+    // The specification's world (which instrument lives on which exchange, shared underlyings, index order) is what
+    // the real index construction must yield for the definitions of harness/src/world2.rs. If it does not, no step of
+    // the engine can be compared with EngineCore: that deviation is reported as data (a violation of every property
+    // decided on this world), not as a crash of the harness.
+    if let Err(p) = catch(|| { let _ = Kit::new(TradingState::Disabled); }) {
+        let mut out = Out::create(args.req("out"));
+        out.line(&json!({"a": "World", "anomaly": format!("the engine world cannot be built as specified: {p}")}));
+        let n = out.finish();
+        println!("{}", json!({"lines": n, "steps": 0, "world_error": p}));
+        return;
+    }
     let mut d = Driver { kit: Kit::new(TradingState::Disabled), out: Out::create(args.req("out")), t: 0, steps: 0, terminal: false, persists: 0 };
     match args.cmd.as_str() {
         "run" => {
